@@ -41,8 +41,11 @@ CENT = np.array([[0.1, 0.0], [0.3, 0.1], [0.2, -0.2], [0.45, -0.1], [0.0, 0.2]])
 def frame(n, seed, ncent):
     r = np.random.default_rng(seed)
     cc = CENT[np.arange(n) % ncent]
+    z = r.uniform(0.1, 1, n)
+    on_edge = r.random(n) < 0.35          # redshifts exactly on bin edges: the closed side decides their bin
+    z[on_edge] = r.choice([0.1, 0.4, 0.7, 1.0], int(on_edge.sum()))
     return dict(ra=cc[:, 0] + r.uniform(-.03, .03, n), dec=cc[:, 1] + r.uniform(-.03, .03, n),
-                z=r.uniform(0.1, 1, n), w=r.choice([1., 2.], n))
+                z=z, w=r.choice([1., 2.], n))
 
 
 def run_batches(jobs, nomp=False, nproc=12):
@@ -232,6 +235,7 @@ def run(prop, tier, seed, replay):
                       "chunksize": {"centres": rng.choice([9, 15, 40]), "ids": 40, "auto": 10}.get(var, 15), "ncent": 3,
                       "drop_meta": sc == "load",
                       "ntasks": 2 if var == "few" else 9}
+                p0["closed"] = "left" if (len(refjobs) % 2 == 0) else "right"
                 refjobs.append(dict(id=f"{sc}|{var}", scenario=sc, params=p0, size=1, dir=str(root)))
                 for size in sizes:
                     for mw in (None, 1, 2, 3):
